@@ -230,4 +230,331 @@ Section XP.
     apply flat_map_filter_nil. intros x Hx Hsel.
     unfold tokens_of. rewrite (finditer_nil_of_no_match _ _ _ (H x Hx Hsel)). reflexivity.
   Qed.
+
+  (* ---- 9. group 1 totality ---- *)
+  Section Grow.
+    Variable ci : bool.
+    Variable s : str.
+
+    (* captures only grow: the continuation receives new ++ c; a group-free body adds nothing *)
+    Definition body_grows (gf : bool) (body : nat -> caps -> K -> option mresult) : Prop :=
+      forall i c k res, body i c k = Some res ->
+        exists j new, k j (new ++ c) = Some res /\ (gf = true -> new = []).
+
+    Lemma rep_grows : forall gf body lo hi, body_grows gf body ->
+      forall fuel count last i c k res,
+        rep body lo hi fuel count last i c k = Some res ->
+        exists j new, k j (new ++ c) = Some res /\ (gf = true -> new = []).
+    Proof.
+      intros gf body lo hi Hbody fuel.
+      induction fuel as [|f IHf]; intros count last i c k res Hrep; cbn [rep] in Hrep.
+      - discriminate.
+      - assert (Hfall : (if (lo <=? count)%nat then k i c else None) = Some res ->
+          exists j new, k j (new ++ c) = Some res /\ (gf = true -> new = [])).
+        { intros Hf. destruct (lo <=? count)%nat; [|discriminate].
+          exists i, []. split; [exact Hf|reflexivity]. }
+        match type of Hrep with
+        | match (if ?g then _ else _) with _ => _ end = _ => destruct g eqn:Hg
+        end; [|apply Hfall; exact Hrep].
+        match type of Hrep with
+        | match ?e with _ => _ end = _ => destruct e as [r0|] eqn:Hb
+        end; [|apply Hfall; exact Hrep].
+        injection Hrep as Hrep. subst r0. clear Hfall.
+        destruct (Hbody _ _ _ _ Hb) as [j1 [new1 [Hk1 Hn1]]].
+        destruct (IHf _ _ _ _ _ _ Hk1) as [j [new2 [Hk Hn2]]].
+        exists j, (new2 ++ new1). rewrite <- app_assoc. split; [exact Hk|].
+        intros Hgf. rewrite (Hn1 Hgf), (Hn2 Hgf). reflexivity.
+    Qed.
+
+    Lemma m_body_grows : forall r,
+      body_grows (negb (has_group r)) (fun i c k => m U ci s r i c k).
+    Proof.
+      unfold body_grows.
+      induction r as [| |ch|ch| |neg items| | | |a IHa b IHb|a IHa b IHb|g r' IHr|lo hi r' IHr|r' IHr];
+        intros i c k res Hm; cbn [m] in Hm; cbn [has_group].
+      - exists i, []. split; [exact Hm|reflexivity].
+      - discriminate.
+      - destruct (nth_error s i) as [x|]; [|discriminate].
+        destruct (lit_mem U ci ch x); [|discriminate].
+        exists (S i), []. split; [exact Hm|reflexivity].
+      - destruct (nth_error s i) as [x|]; [|discriminate].
+        destruct (lit_mem U ci ch x); [discriminate|].
+        exists (S i), []. split; [exact Hm|reflexivity].
+      - destruct (nth_error s i) as [x|]; [|discriminate].
+        destruct (N.eqb x 10); [discriminate|].
+        exists (S i), []. split; [exact Hm|reflexivity].
+      - destruct (nth_error s i) as [x|]; [|discriminate].
+        destruct (set_mem U ci neg items x); [|discriminate].
+        exists (S i), []. split; [exact Hm|reflexivity].
+      - destruct (Nat.eqb i 0); [|discriminate].
+        exists i, []. split; [exact Hm|reflexivity].
+      - destruct (at_eol s i); [|discriminate].
+        exists i, []. split; [exact Hm|reflexivity].
+      - destruct (word_boundary U s i); [|discriminate].
+        exists i, []. split; [exact Hm|reflexivity].
+      - (* Cat *)
+        destruct (IHa _ _ _ _ Hm) as [j1 [new1 [Hk1 Hn1]]].
+        destruct (IHb _ _ _ _ Hk1) as [j [new2 [Hk Hn2]]].
+        exists j, (new2 ++ new1). rewrite <- app_assoc. split; [exact Hk|].
+        intros Hgf. apply negb_true_iff, orb_false_iff in Hgf. destruct Hgf as [Hga Hgb].
+        rewrite Hn1, Hn2; [reflexivity| |]; apply negb_true_iff; assumption.
+      - (* Alt *)
+        destruct (m U ci s a i c k) as [r0|] eqn:Ha.
+        + injection Hm as Hm. subst r0.
+          destruct (IHa _ _ _ _ Ha) as [j [new [Hk Hn]]].
+          exists j, new. split; [exact Hk|].
+          intros Hgf. apply negb_true_iff, orb_false_iff in Hgf. destruct Hgf as [Hga Hgb].
+          apply Hn. apply negb_true_iff. exact Hga.
+        + destruct (IHb _ _ _ _ Hm) as [j [new [Hk Hn]]].
+          exists j, new. split; [exact Hk|].
+          intros Hgf. apply negb_true_iff, orb_false_iff in Hgf. destruct Hgf as [Hga Hgb].
+          apply Hn. apply negb_true_iff. exact Hgb.
+      - (* Group *)
+        destruct (IHr _ _ _ _ Hm) as [j [new [Hk _]]].
+        exists j, ((g, (i, j)) :: new). split; [exact Hk|]. intros Hf. discriminate.
+      - (* Rep *)
+        exact (rep_grows _ _ lo hi IHr _ _ _ _ _ _ _ Hm).
+      - (* Look *)
+        destruct (m U ci s r' i c (fun j c' => Some (j, c'))) as [r0|]; [|discriminate].
+        exists i, []. split; [exact Hm|reflexivity].
+    Qed.
+
+    (* captures only grow *)
+    Lemma m_grows : forall r i c k res,
+      m U ci s r i c k = Some res -> exists j new, k j (new ++ c) = Some res.
+    Proof.
+      intros r i c k res Hm. destruct (m_body_grows r i c k res Hm) as [j [new [Hk _]]].
+      exists j, new. exact Hk.
+    Qed.
+
+    (* a group-free pattern leaves the captures unchanged *)
+    Lemma m_group_free : forall r i c k res,
+      has_group r = false -> m U ci s r i c k = Some res -> exists j, k j c = Some res.
+    Proof.
+      intros r i c k res Hg Hm. destruct (m_body_grows r i c k res Hm) as [j [new [Hk Hn]]].
+      rewrite Hn in Hk by (rewrite Hg; reflexivity). exists j. exact Hk.
+    Qed.
+
+    Definition has1 (c : caps) : Prop := exists a b, cap_get 1 c = Some (a, b).
+
+    Lemma has1_app : forall new c, has1 c -> has1 (new ++ c).
+    Proof.
+      intros new c [a [b H]]. destruct (cap_get_app_some 1 new c _ H) as [[a' b'] H'].
+      exists a', b'. exact H'.
+    Qed.
+
+    (* structural sufficient condition, more general than group1_total: group 1 lies on every
+       path through the pattern (sequence positions and nested groups only) *)
+    Fixpoint sets1 (r : re) : bool :=
+      match r with
+      | Group n r' => Nat.eqb n 1 || sets1 r'
+      | Cat a b => sets1 a || sets1 b
+      | _ => false
+      end.
+
+    Lemma m_sets1 : forall r i c k res,
+      sets1 r = true -> m U ci s r i c k = Some res ->
+      exists j c', k j c' = Some res /\ has1 c'.
+    Proof.
+      induction r as [| |ch|ch| |neg items| | | |a IHa b IHb|a IHa b IHb|g r' IHr|lo hi r' IHr|r' IHr];
+        intros i c k res Hs Hm; cbn [sets1] in Hs; try discriminate; cbn [m] in Hm.
+      - (* Cat *)
+        apply orb_true_iff in Hs. destruct Hs as [Hs|Hs].
+        + destruct (IHa _ _ _ _ Hs Hm) as [j1 [c1 [Hk1 H1]]].
+          destruct (m_grows _ _ _ _ _ Hk1) as [j [new Hk]].
+          exists j, (new ++ c1). split; [exact Hk|apply has1_app; exact H1].
+        + destruct (m_grows _ _ _ _ _ Hm) as [j1 [new Hk1]].
+          exact (IHb _ _ _ _ Hs Hk1).
+      - (* Group *)
+        apply orb_true_iff in Hs. destruct Hs as [Hs|Hs].
+        + apply Nat.eqb_eq in Hs. subst g.
+          destruct (m_grows _ _ _ _ _ Hm) as [j [new Hk]].
+          exists j, ((1, (i, j)) :: new ++ c). split; [exact Hk|].
+          exists i, j. reflexivity.
+        + destruct (IHr _ _ _ _ Hs Hm) as [j [c' [Hk H1]]].
+          exists j, ((g, (i, j)) :: c'). split; [exact Hk|].
+          apply (has1_app [(g, (i, j))]). exact H1.
+    Qed.
+
+    Lemma group1_total_sets1 : forall r, group1_total r = true -> sets1 r = true.
+    Proof.
+      intros r H. unfold group1_total in H.
+      repeat match type of H with
+             | match ?x with _ => _ end = true => destruct x; try discriminate
+             end; cbn [sets1 Nat.eqb orb]; rewrite ?orb_true_r; reflexivity.
+    Qed.
+  End Grow.
+
+  Lemma match_at_sets1 : forall ci s r i j c,
+    sets1 r = true -> match_at U ci s r i = Some (j, c) -> has1 c.
+  Proof.
+    intros ci s r i j c Hs Hm. unfold match_at in Hm.
+    destruct (m_sets1 ci s r i [] _ _ Hs Hm) as [j' [c' [Hk H1]]].
+    injection Hk as _ Hc. subst c'. exact H1.
+  Qed.
+
+  Lemma match_at_adv_sets1 : forall ci s r i j c,
+    sets1 r = true -> match_at_adv U ci s r i = Some (j, c) -> has1 c.
+  Proof.
+    intros ci s r i j c Hs Hm. unfold match_at_adv in Hm.
+    destruct (m_sets1 ci s r i [] _ _ Hs Hm) as [j' [c' [Hk H1]]].
+    cbv beta in Hk. destruct (Nat.eqb j' i); [discriminate|].
+    injection Hk as _ Hc. subst c'. exact H1.
+  Qed.
+
+  Lemma search_adv_sets1 : forall ci s r pos adv i j c,
+    sets1 r = true -> search_adv U ci s r pos adv = Some (i, j, c) -> has1 c.
+  Proof.
+    intros ci s r pos adv i j c Hs1 Hs. unfold search_adv in Hs.
+    destruct (if adv then match_at_adv U ci s r pos else match_at U ci s r pos)
+      as [[j0 c0]|] eqn:Hfirst.
+    - injection Hs as Hi Hj Hc. subst i j0 c0.
+      destruct adv; [eapply match_at_adv_sets1|eapply match_at_sets1]; eassumption.
+    - destruct (Nat.ltb_spec pos (length s)) as [Hlt|Hge]; [|discriminate].
+      destruct (search_from_sound U ci s r _ (S pos) i j c Hlt Hs) as [_ [_ [Hm _]]].
+      eapply match_at_sets1; eassumption.
+  Qed.
+
+  Lemma finditer_from_sets1 : forall ci s r fuel pos adv i j c,
+    sets1 r = true -> In (i, j, c) (finditer_from U ci s r fuel pos adv) -> has1 c.
+  Proof.
+    intros ci s r fuel. induction fuel as [|f IHf]; intros pos adv i j c Hs1 Hin;
+      cbn [finditer_from] in Hin.
+    - destruct Hin.
+    - destruct (search_adv U ci s r pos adv) as [[[i0 j0] c0]|] eqn:Hs; [|destruct Hin].
+      destruct Hin as [Heq|Hin].
+      + injection Heq as H1 H2 H3. subst i0 j0 c0. eapply search_adv_sets1; eassumption.
+      + eapply IHf; eassumption.
+  Qed.
+
+  Theorem group1_always : forall ci s r i j c,
+    group1_total r = true -> In (i, j, c) (finditer U ci s r) ->
+    exists a b, cap_get 1 c = Some (a, b).
+  Proof.
+    intros ci s r i j c Hg Hin. unfold finditer in Hin.
+    exact (finditer_from_sets1 ci s r _ _ _ i j c (group1_total_sets1 r Hg) Hin).
+  Qed.
+
+  Lemma somes_map_length {A B} (f : A -> option B) (l : list A) :
+    (forall a, In a l -> f a <> None) -> length (somes (map f l)) = length l.
+  Proof.
+    induction l as [|a l IH]; intros H; [reflexivity|].
+    cbn [map somes]. destruct (f a) as [b|] eqn:Hf.
+    - cbn [length]. f_equal. apply IH. intros a' Ha'. apply H. right. exact Ha'.
+    - exfalso. apply (H a (or_introl eq_refl)). exact Hf.
+  Qed.
+
+  Theorem tokens_of_length : forall x s,
+    group1_total (row_re (fst x)) = true ->
+    length (tokens_of U x s) = length (finditer U (row_ci (fst x)) s (row_re (fst x))).
+  Proof.
+    intros x s Hg. unfold tokens_of. apply somes_map_length.
+    intros [[i j] c] Hin. destruct (group1_always _ _ _ i j c Hg Hin) as [a [b Hc]].
+    unfold tok_of. cbn [snd]. rewrite Hc. discriminate.
+  Qed.
 End XP.
+
+(* ------------------------------------------------------------------ *)
+(* the generated tables                                                *)
+(* ------------------------------------------------------------------ *)
+From EV Require Import Gen.Unicode Gen.Lower Gen.ExtractorsAll Gen.ExtractorIndex Gen.ExtractTable.
+From EV Require Import Proofs.C13Proofs Model.TokenizeEq Model.E2E.
+
+(* ---- 10. the assembled table carries exactly the checked rows ---- *)
+Theorem zip_table_rows : forall rows idx ns sets t,
+  zip_table rows idx ns sets = Some t -> map fst t = rows.
+Proof.
+  induction rows as [|x rows IH]; intros idx ns sets t H; cbn [zip_table] in H.
+  - destruct idx; [|discriminate]. destruct ns; [|discriminate].
+    injection H as H. subst t. reflexivity.
+  - destruct idx as [|[[[[i k] sh] ex] va] idx]; [discriminate|].
+    destruct ns as [|[i' n] ns]; [discriminate|].
+    destruct (N.eqb (row_idx x) i && N.eqb i i'); [|discriminate].
+    destruct (nth_error sets n) as [names|]; [|discriminate].
+    destruct (zip_table rows idx ns sets) as [rest|] eqn:Hrest; [|discriminate].
+    injection H as H. subst t. cbn [map fst]. f_equal. exact (IH _ _ _ _ Hrest).
+Qed.
+
+Theorem xtable_rows_in_table : forall x, In x xtable -> in_table (fst x).
+Proof.
+  intros x Hin. unfold xtable in Hin.
+  destruct xtable_opt as [t|] eqn:Ht; [|destruct Hin].
+  unfold xtable_opt in Ht. apply zip_table_rows in Ht.
+  assert (Hf : In (fst x) (map fst t)) by (apply in_map; exact Hin).
+  rewrite Ht in Hf. apply in_concat in Hf. destruct Hf as [sh [Hsh Hx]].
+  exists sh. split; assumption.
+Qed.
+
+(* ---- 11. the Aho-Corasick pre-filter loses no candidate ---- *)
+Lemma selected_x_selected : forall s T x,
+  selected_x s T x = selected (fst x) (if row_ci (fst x) then T else s).
+Proof. intros s T x. reflexivity. Qed.
+
+Theorem ac_lossless : forall s T,
+  clean is_offending s -> NormOf true lower1 s T ->
+  extract_ac U xtable s T = extract_all U xtable s.
+Proof.
+  intros s T Hc HN. apply extract_ac_lossless_gen. intros x Hx Hsel.
+  rewrite selected_x_selected in Hsel.
+  apply (skipped_cannot_match_partial (fst x) s (if row_ci (fst x) then T else s)
+           (xtable_rows_in_table x Hx) Hc); [|exact Hsel].
+  destruct (row_ci (fst x)); [exact HN|reflexivity].
+Qed.
+
+(* ---- 12. text.lower() one character at a time is an allowed normalisation ---- *)
+Lemma NormOf_lower_str : forall s, NormOf true lower1 s (lower_str lower1 s).
+Proof.
+  intros s. unfold NormOf, lower_str. exists (map lower1 s). split.
+  - induction s as [|c s IH]; cbn [map]; constructor; [left; reflexivity|exact IH].
+  - apply flat_map_concat_map.
+Qed.
+
+Theorem candidates_text_lossless : forall s,
+  clean is_offending s -> candidates_text s = candidates_text_ref s.
+Proof.
+  intros s Hc. unfold candidates_text, candidates_text_ref.
+  apply ac_lossless; [exact Hc|apply NormOf_lower_str].
+Qed.
+
+(* ---- 13. C12 end to end: no hypothesis on the candidates ---- *)
+Lemma candidates_text_wf : forall s, Forall (cand_wf s) (candidates_text s).
+Proof. intros s. unfold candidates_text, extract_ac. apply extract_with_wf. Qed.
+
+Theorem tokenize_text_concat : forall s, stream_text (fst (tokenize_text s)) = s.
+Proof. intros s. unfold tokenize_text. apply tokenize_concat. apply candidates_text_wf. Qed.
+
+Theorem tokenize_text_index : forall s,
+  snd (tokenize_text s) = specials (fst (tokenize_text s)).
+Proof. intros s. unfold tokenize_text. apply tokenize_index. apply candidates_text_wf. Qed.
+
+Theorem tokenize_text_offsets : forall s i t,
+  In (i, t) (snd (tokenize_text s)) ->
+  nth_error (fst (tokenize_text s)) i = Some (T t) /\
+  cand_wf s t /\
+  length (stream_text (firstn i (fst (tokenize_text s)))) = t_start t.
+Proof. intros s. unfold tokenize_text. apply tokenize_offsets. apply candidates_text_wf. Qed.
+
+Theorem tokenize_text_increasing : forall s l1 i t j t' l2,
+  snd (tokenize_text s) = l1 ++ (i, t) :: (j, t') :: l2 ->
+  (i < j)%nat /\ (t_end t <= t_start t')%nat.
+Proof. intros s. unfold tokenize_text. apply tokenize_increasing. apply candidates_text_wf. Qed.
+
+(* every extractor of the generated table produces one candidate per reported match *)
+Theorem xtable_tokens_of_length : forall x s, In x xtable ->
+  length (tokens_of U x s) = length (finditer U (row_ci (fst x)) s (row_re (fst x))).
+Proof.
+  intros x s Hx. apply tokens_of_length.
+  pose proof xtable_group1 as H. rewrite forallb_forall in H. exact (H x Hx).
+Qed.
+
+Print Assumptions finditer_sound.
+Print Assumptions finditer_chain.
+Print Assumptions extract_with_wf.
+Print Assumptions group1_always.
+Print Assumptions tokens_of_length.
+Print Assumptions ac_lossless.
+Print Assumptions candidates_text_lossless.
+Print Assumptions tokenize_text_concat.
+Print Assumptions tokenize_text_index.
+Print Assumptions tokenize_text_offsets.
+Print Assumptions tokenize_text_increasing.
